@@ -251,6 +251,8 @@ def v6_text(r, a):
 def gen_v6_bytes(r):
     k = r.below(6)
     a = bytearray(r.bytes(16))
+    if r.chance(1, 12):
+        return bytes(r.choice([b"\xff" * 16, b"\xff" * 15 + b"\xfe", b"\x00" * 16, b"\xff" * 8 + b"\x00" * 8]))
     if k == 0:
         a = bytearray(16)
         a[15] = r.below(3)
